@@ -98,6 +98,107 @@ def transfer(case):
                 val0=list(srv0), ev=ev)
 
 
+# reply slots for concurrent groups: how many polls of the mailbox status a reply stays invisible
+CSLOTS = dict(SLOTS, d3={"delay": 3}, d5={"delay": 5})
+
+
+def run_group(group):
+    """several tasks transfer at the same time on ONE terminal (each its own object).
+    group: dict(mbxout, mbxin, script=[slot kind per reply, in the order the terminal answers],
+                members=[dict(op, ca, n, index, sub, start=event-loop yields before it starts)]).
+    Returns one trace per member: the mails are attributed to the member whose task queued the
+    mailbox write (every reply belongs to the request it answers), so that each transfer can be
+    validated on its own against Sdo || CoE - exactly what the property asks: each transfer
+    still carries its own value and gets its own responses."""
+    import asyncio
+    from ebpfcat.ethercat import ECCmd, EtherCat, Terminal
+    term = make_terminal(group["mbxout"], group["mbxin"])
+    od, datas, keys = {}, [], []
+    for k, m in enumerate(group["members"]):
+        data = value(m["n"], salt=k + 1)
+        sub = 1 if m["ca"] else m["sub"]
+        key = (m["index"], m["ca"], sub)
+        if key in od:
+            raise ValueError("members of a group need distinct objects")
+        od[key] = data if m["op"] == "up" else bytes([0xee, 0xdd])
+        datas.append(data)
+        keys.append(key)
+    val0 = dict(od)
+    srv = coeserver.SdoServer(term, od, [CSLOTS[x] for x in group["script"]])
+    term.mbx_server = srv
+    writes, owners, outs = [], [], [dict() for _ in group["members"]]
+
+    def on_mail(m, raw):                       # which member's task wrote this mail
+        who = -1
+        for j, (name, data) in enumerate(writes):
+            if data == raw:
+                who = name
+                del writes[:j + 1]
+                break
+        owners.append(who)
+    srv.on_mail = on_mail
+
+    async def main():
+        ec = EtherCat("x")
+        simbus.attach(ec, simbus.SimBus([term]))
+        put = ec.send_queue.put_nowait
+
+        def tagged(item):
+            task = asyncio.current_task()
+            if item[0] is ECCmd.FPWR and item[4] == 0x1000 and task is not None:
+                name = task.get_name()
+                writes.append((int(name[1:]) if name.startswith("m") else -1, bytes(item[1])))
+            return put(item)
+        ec.send_queue.put_nowait = tagged
+        t = Terminal(ec)
+        t.position = term.station
+        t.mbx_lock = ec.get_mbx_lock(term.station)
+        t.parse_sync_managers(bytes(term.mem[0x800:0x810]))
+
+        async def member(k, m):
+            for _ in range(m.get("start", 0)):
+                await asyncio.sleep(0)
+            out = outs[k]
+            try:
+                if m["op"] == "up":
+                    r = await t.sdo_read(m["index"], None if m["ca"] else m["sub"])
+                    out.update(res="ok", value=list(r) if isinstance(r, (bytes, bytearray)) else [-1])
+                else:
+                    await t.sdo_write(datas[k], m["index"], None if m["ca"] else m["sub"])
+                    out.update(res="ok", value=[])
+            except Exception as e:
+                out.update(res="raise", value=[], exc=f"{type(e).__name__}: {e}"[:200])
+        tasks = [asyncio.ensure_future(member(k, m)) for k, m in enumerate(group["members"])]
+        for k, task in enumerate(tasks):
+            task.set_name(f"m{k}")
+        await asyncio.gather(*tasks)
+
+    logging.disable(logging.CRITICAL)
+    stall = None
+    try:
+        simloop.run(main, budget=200000)
+    except simloop.StallError as e:
+        stall = str(e)
+    finally:
+        logging.disable(logging.NOTSET)
+    # split the terminal's log by member
+    evs = [[dict(ev="start", op=m["op"], data=list(datas[k]) if m["op"] == "down" else [])]
+           for k, m in enumerate(group["members"])]
+    owner, it = -1, iter(owners)
+    for e in srv.log:
+        if e["dir"] == "c2s":
+            owner = next(it, -1)
+        if 0 <= owner < len(evs):
+            evs[owner].append(dict(ev=e["dir"], m=e["m"]))
+    traces = []
+    for k, m in enumerate(group["members"]):
+        out = outs[k] or dict(res="stall", value=[], exc=stall or "never finished")
+        evs[k].append(dict(ev="end", out=out, srvval=list(srv.od[keys[k]]), others_changed=[]))
+        traces.append(dict(obj=dict(index=m["index"], ca=m["ca"], sub=keys[k][2], mbxout=group["mbxout"],
+                                    mbxin=group["mbxin"]), val0=list(val0[keys[k]]), ev=evs[k]))
+    return traces
+
+
 def boundary_lengths(mbo, mbi):
     """0..12 and everything within 2 of a fragment boundary, up to 3 mailbox sizes"""
     top = 3 * max(mbo, mbi)
@@ -164,6 +265,58 @@ def make_cases(ctx, scripts):
                           sub=ctx.rng.choice([0, 0, 1, 255, ctx.rng.randrange(256)]),
                           data=[ctx.rng.randrange(256) for _ in range(n)], random=True))
     return cases
+
+
+# kinds of transfer a member of a concurrent group performs: (op, complete access, length)
+MEMBER_KINDS = {"wexp": ("down", False, 2), "wexp4": ("down", False, 4), "wnorm": ("down", False, 10),
+                "wseg": ("down", False, 40), "wca": ("down", True, 21), "rexp": ("up", False, 3),
+                "rnorm": ("up", False, 12), "rseg": ("up", False, 45), "rca": ("up", True, 30)}
+GROUP_SCRIPTS = [["plain"], ["d1"], ["d3"], ["d5"], ["d3", "d1", "d5", "plain"], ["d2", "d5"]]
+MEMBER_ADDR = [(0x8020, 3), (0x1008, 0), (0x8010, 2)]
+
+
+def make_groups(ctx):
+    """2 or 3 tasks transferring at once on one terminal: every ordered pair of transfer kinds
+    (expedited / normal / segmented / complete access, both directions) x reply delays of 0..5
+    mailbox polls x start offsets; a rotation of triples"""
+    import itertools
+    kinds = list(MEMBER_KINDS)
+    scripts = GROUP_SCRIPTS[:1] + GROUP_SCRIPTS[2:5] if ctx.quick else GROUP_SCRIPTS
+    starts = [(0, 1)] if ctx.quick else [(0, 0), (0, 1), (2, 0)]
+
+    def member(kind, k, start):
+        op, ca, n = MEMBER_KINDS[kind]
+        index, sub = MEMBER_ADDR[k]
+        return dict(kind=kind, op=op, ca=ca, n=n, index=index, sub=sub, start=start)
+    groups = []
+    for a, b in itertools.product(kinds, kinds):
+        for sc in scripts:
+            for st in starts:
+                groups.append(dict(mbxout=32, mbxin=32, script=sc * 12,
+                                   members=[member(a, 0, st[0]), member(b, 1, st[1])]))
+    for j, (a, b, c) in enumerate(itertools.product(kinds[::2], kinds[1::2], kinds[:3])):
+        if ctx.quick and j % 2:
+            continue
+        groups.append(dict(mbxout=48 if j % 3 == 0 else 32, mbxin=32, script=GROUP_SCRIPTS[2 + j % 3] * 12,
+                           members=[member(a, 0, 0), member(b, 1, j % 2), member(c, 2, 1)]))
+    for _ in range(20 if ctx.quick else 150):               # extra random groups (not gating)
+        ks = [ctx.rng.choice(kinds) for _ in range(ctx.rng.choice([2, 3]))]
+        groups.append(dict(mbxout=ctx.rng.choice([32, 48, 128]), mbxin=ctx.rng.choice([32, 48, 128]),
+                           script=[ctx.rng.choice(["plain", "d1", "d2", "d3", "d5"]) for _ in range(40)],
+                           members=[member(kd, k, ctx.rng.randrange(0, 4)) for k, kd in enumerate(ks)]))
+    return groups
+
+
+def group_cases(groups):
+    """run the groups; -> (cases, traces), one per member"""
+    cases, traces = [], []
+    for g in groups:
+        for k, (m, tr) in enumerate(zip(g["members"], run_group(g))):
+            cases.append(dict(op=m["op"], ca=m["ca"], n=m["n"], index=m["index"], sub=m["sub"],
+                              mbxout=g["mbxout"], mbxin=g["mbxin"], script=g["script"][:6],
+                              concurrent=dict(member=k, kinds=[x["kind"] for x in g["members"]], group=g)))
+            traces.append(tr)
+    return cases, traces
 
 
 def describe(case, tr):
@@ -257,7 +410,7 @@ def judge(ctx, case, tr, result):
     d = describe(case, tr)
     ctx.traces += 1
     ctx.evaluated((case["op"], case["ca"], case["n"], case["mbxout"], case["mbxin"], tuple(case["script"]),
-                   case.get("index"), case.get("sub"),
+                   case.get("index"), case.get("sub"), repr(case.get("concurrent")),
                    case.get("random", False) and tuple(case.get("data", ()))),
                   nontrivial=case["n"] > 4 or d["used_script"] != ["plain"] * len(d["used_script"]))
     if matched == length and not isinstance(inv, str):
@@ -278,8 +431,11 @@ def judge(ctx, case, tr, result):
     elif bad["ev"] == "s2c":
         reason = f"simulated server left CoE.tla at event {matched}: {d['rejected_event']}"
     else:
+        conc = case.get("concurrent")
         reason = (f"{case['op']} of {case['n']} bytes (ca={case['ca']}, mailbox {case['mbxout']}/"
-                  f"{case['mbxin']}, script {d['used_script']}): outcome {d['outcome']} {d['exc']!r} "
+                  f"{case['mbxin']}, script {d['used_script']}"
+                  + (f", concurrently with {conc['kinds']} as member {conc['member']}" if conc else "")
+                  + f"): outcome {d['outcome']} {d['exc']!r} "
                   f"is not the byte-exact completion the property requires")
     ctx.case_failed(d, reason)
     return False
@@ -295,6 +451,10 @@ def run(ctx):
         scripts = f2.result()
     cases = make_cases(ctx, scripts)
     traces = [transfer(c) for c in cases]
+    gcases, gtraces = group_cases(make_groups(ctx))
+    cases += gcases
+    traces += gtraces
+    ctx.extra["concurrent_transfers"] = len(gcases)
     results = validate(ctx, wd, cases, traces)
     ok = {}
     for c, tr, r in zip(cases, traces, results):
@@ -311,14 +471,19 @@ def run(ctx):
                 "grid of mailbox size pairs from {32,48,128,256} x value lengths 0..3 mailbox sizes "
                 "(all lengths for the small mailboxes, fragment-boundary lengths for the large) x "
                 "{upload, download} x {subindex, complete access} x {plain script, rotating "
-                "TLC-enumerated reply scripts} + random cases; non-trivial = value longer than 4 "
+                "TLC-enumerated reply scripts} + random cases; 2-3 tasks transferring at once on one "
+                "terminal (all ordered pairs of transfer kinds x reply delays 0..5 polls), each "
+                "transfer validated on its own; non-trivial = value longer than 4 "
                 "bytes or a reply that is delayed / preceded by unrelated mail / fragmented / aborted")
     ctx.assumptions.append("complete access and subindex access are modelled as independent objects "
                            "(one object per transfer); after a server abort the outcome is unconstrained")
 
 
 def replay(ctx, case):
-    tr = transfer(case)
+    if case.get("concurrent"):
+        tr = run_group(case["concurrent"]["group"])[case["concurrent"]["member"]]
+    else:
+        tr = transfer(case)
     wd = ctx.workdir()
     r = validate(ctx, wd, [case], [tr])[0]
     print("events:")
